@@ -1480,6 +1480,8 @@ class MindsDBParser(Parser):
             if len(p.identifier.parts) > 1:
                 namespace = p.identifier.parts[0]
             name = p.identifier.parts[-1]
+            if not isinstance(name, str):
+                raise ParsingException(f"Wrong function name: {str(p.identifier)}")
         else:
             name = p.function_name
         return Function(op=name, args=args, namespace=namespace)
